@@ -124,6 +124,30 @@ type cfg struct {
 	listFail int
 }
 
+// deadNamespace refuses every kind watch in namespace "dead" (an UpdateInputs that adds an input there fails half-way)
+// and the first *flaky watches in namespace "flaky"; it records the kinds whose watch was established.
+type deadNamespace struct {
+	state.CoreState
+	flaky       *int
+	established map[string]bool
+}
+
+func (d deadNamespace) WatchKindAggregated(ctx context.Context, kind resource.Kind, ch chan<- []state.Event, opts ...state.WatchKindOption) error {
+	vrt.TouchKey("c05.obs", true)
+	if kind.Namespace() == "dead" || kind.Namespace() == "zdead" {
+		return fmt.Errorf("injected: namespace %q cannot be watched", kind.Namespace())
+	}
+	if kind.Namespace() == "flaky" && *d.flaky > 0 {
+		*d.flaky--
+		return fmt.Errorf("injected: transient failure to watch %q", kind.Namespace())
+	}
+	if err := d.CoreState.WatchKindAggregated(ctx, kind, ch, opts...); err != nil {
+		return err
+	}
+	d.established[kind.Namespace()+"/"+kind.Type()] = true
+	return nil
+}
+
 // flakyList makes the first *n List calls of the Int kind fail.
 type flakyList struct {
 	state.CoreState
@@ -204,6 +228,11 @@ func body(c cfg, x *explore.X) {
 	if listFail > 0 {
 		core = flakyList{core, &listFail}
 	}
+	flakyWatches, watchesEstablished := 1, map[string]bool{}
+	flakyAccepted := false
+	if c.when == "failed-switch" {
+		core = deadNamespace{core, &flakyWatches, watchesEstablished}
+	}
 	st := state.WrapCore(core)
 	for _, op := range c.pre {
 		doW(ctx, st, op)
@@ -253,7 +282,10 @@ func body(c cfg, x *explore.X) {
 			return
 		}
 		p := &px.Probe{NameV: o.name}
-		declared := c.when != "update-inputs" && c.when != "shrink-inputs"
+		declared := c.when != "update-inputs" && c.when != "shrink-inputs" && c.when != "failed-switch"
+		if c.when == "failed-switch" {
+			p.InputsV = ctrlInputs
+		}
 		if declared {
 			p.InputsV = ctrlInputs
 		}
@@ -267,7 +299,33 @@ func body(c cfg, x *explore.X) {
 				if c.gate {
 					vrt.Recv1(gate)
 				}
-				if err := r.UpdateInputs(append([]controller.Input(nil), ctrlInputs...)); err != nil {
+				if c.when == "failed-switch" {
+					// tries to swap each declared input in turn for one in a namespace that cannot be watched; the call
+					// fails, the controller falls back to exactly the inputs it had: they must all still wake it
+					for i := 0; i < len(ctrlInputs) && !strings.Contains(c.name, "retry-after-failed-watch"); i++ {
+						// (namespaces sorting before and after the real one: the failing addition comes before or after the
+						// removal of the swapped-out input in the merge)
+						for _, ns := range []string{"dead", "zdead"} {
+							swapped := append([]controller.Input(nil), ctrlInputs...)
+							swapped[i] = controller.Input{Namespace: ns, Type: resource.Type(fmt.Sprintf("test/unwatchable%d", i)), Kind: controller.InputWeak}
+							if err := r.UpdateInputs(swapped); err == nil {
+								panic("UpdateInputs with an unwatchable input succeeded")
+							}
+							if err := r.UpdateInputs(append([]controller.Input(nil), ctrlInputs...)); err != nil {
+								panic(err)
+							}
+						}
+					}
+					// an additional input whose watch fails once: the retry either fails again or establishes the watch
+					if strings.Contains(c.name, "retry-after-failed-watch") {
+						extra := append(append([]controller.Input(nil), ctrlInputs...), controller.Input{Namespace: "flaky", Type: tInt, Kind: controller.InputWeak})
+						if err := r.UpdateInputs(append([]controller.Input(nil), extra...)); err == nil {
+							panic("UpdateInputs succeeded although the watch could not be established")
+						}
+						vrt.TouchKey("c05.obs", true)
+						flakyAccepted = r.UpdateInputs(append([]controller.Input(nil), extra...)) == nil
+					}
+				} else if err := r.UpdateInputs(append([]controller.Input(nil), ctrlInputs...)); err != nil {
 					panic(err)
 				}
 			}
@@ -334,6 +392,9 @@ func body(c cfg, x *explore.X) {
 	}
 	vrt.TouchKey("c05.obs", true)
 	listFail = 0 // the harness's own final reads are not subject to the injected failures
+	if flakyAccepted && !watchesEstablished["flaky/"+tInt] {
+		x.FailKey("failed-switch/input-without-watch/"+c.name, "%s: UpdateInputs accepted the input flaky/%s on the retry after a failed watch, but at quiescence no watch of that kind has been established: no change to it can ever wake the controller", c.name, tInt)
+	}
 	check(c, x, log, st, observations, base)
 	vrt.Branching(false)
 	log.Frozen = true
@@ -539,6 +600,8 @@ func build(tier string) []explore.Scenario {
 	add(cfg{name: "q-primary+mapped-destroy-ready-kind+mapped-id-m1/update-m1", q: true, inputs: []inSpec{{tInt, "", qp}, {tStr, "", qmd}, {tStr, "m1", qm}}, pre: []wop{"create a", "create b", "create m1"}, script: []wop{"update m1"}, prologue: true, bounds: b0[:len(b0)-1]})
 	add(cfg{name: "q-primary+mapped-id-m1+mapped-destroy-ready-kind/update-m1", q: true, inputs: []inSpec{{tInt, "", qp}, {tStr, "m1", qm}, {tStr, "", qmd}}, pre: []wop{"create a", "create b", "create m1"}, script: []wop{"update m1"}, prologue: true, bounds: b0[:len(b0)-1]})
 	add(cfg{name: "q-primary/startup-listing-fails-twice", q: true, inputs: []inSpec{{tInt, "", qp}}, listFail: 2, pre: []wop{"create a", "create b"}, script: []wop{"create c"}, prologue: true, bounds: []int{0}})
+	add(cfg{name: "weak-kind+weak-str/failed-input-switch-then-fallback", inputs: []inSpec{{tInt, "", w}, {tStr, "", w}}, when: "failed-switch", pre: []wop{"create a", "create b", "create m1"}, script: []wop{"update a", "update m1"}, prologue: true, bounds: []int{0}})
+	add(cfg{name: "strong-id-a+weak-kind/new-input-retry-after-failed-watch", inputs: []inSpec{{tInt, "a", s}, {tInt, "", w}}, when: "failed-switch", pre: []wop{"create a", "create b"}, script: []wop{"update b", "update a"}, prologue: true, bounds: []int{0}})
 	add(cfg{name: "q-primary/after-run", q: true, inputs: []inSpec{{tInt, "", qp}}, when: "after-run", pre: pre, script: []wop{"update a"}, prologue: true, bounds: b0})
 	if tier == "thorough" {
 		add(cfg{name: "weak-kind/3updates", inputs: []inSpec{{tInt, "", w}}, pre: pre, script: []wop{"update a", "create b", "update a"}, prologue: true, bounds: []int{0, 1, 2}})
